@@ -7,7 +7,9 @@ yielded feature is compared with the pairwise reference model of gvmon/models/c1
 Inputs' str() and an independent content dump of the database are compared before / after every call, and the SQL
 trace of gffutils' own connection is searched for write statements.
 """
+import copy
 import json
+import random
 import re
 import os
 from collections import Counter
@@ -46,8 +48,15 @@ RULE = ("lists of 1..8 features, start-ordered inside each seqid block, consecut
         "inside / between / beyond the transcript's own exons, 12% of them naming the transcript as a second Parent), grouped "
         "by grandparent gene or by parent_featuretype = any non-gene, non-exon type present: the exons of a transcript are the "
         "exon-typed features whose Parent values name it; "
+        "'alias' cases: lists of 3..8 features (objects; every 8th read from a GFF3 database), merge_attributes on / off (50%), "
+        "update_attributes (85%) = the caller's dictionary of 1..3 non-ID keys the neighbours carry or not, each a list of 1..3 "
+        "values (several-valued in 60%), plus a one-valued ID in 40%; the consumer compares every yielded feature with the model "
+        "at yield time and EDITS it in place - lazily while iterating (70%) and once more after collecting: ID set by item "
+        "assignment, values appended to the lists under keys that update_attributes does not give, a key added, a key of "
+        "update_attributes re-assigned; after every edit every other yielded feature, a deep snapshot of the caller's "
+        "update_attributes and the inputs' attribute mappings are compared; "
         "non-trivial = at least one gap and at least one suppressed pair (touching / overlapping / seqid change) in the "
-        "list or in one transcript; distinct = distinct (records, options) tuples")
+        "list or in one transcript ('alias' cases: at least two yielded features); distinct = distinct (records, options) tuples")
 REQUIRED = ["interfeatures calls", "gap features compared", "suppressed pairs: touching", "suppressed pairs: overlapping",
             "suppressed pairs: seqid change", "one-base gaps compared", "attribute unions compared", "ID values joined",
             "numeric orderings compared", "input str() comparisons", "database dumps compared", "create_introns calls",
@@ -102,7 +111,19 @@ REQUIRED = ["interfeatures calls", "gap features compared", "suppressed pairs: t
             % (w, m) for w in ("introns", "splice sites") for m in ("grandparent", "parent_featuretype")] + \
            ["nested: transcripts compared that have exon-typed descendants below level 1 (%s mode)" % m
             for m in ("grandparent", "parent_featuretype")] + \
-           ["nested: the nested features themselves taken as transcripts (parent_featuretype mode), own exons compared"]
+           ["nested: the nested features themselves taken as transcripts (parent_featuretype mode), own exons compared",
+            "aliasing: interfeatures calls whose yielded features were edited in place while iterating lazily",
+            "aliasing: interfeatures calls whose yielded features were edited in place after collecting",
+            "aliasing: yielded features given an ID in place (item assignment)",
+            "aliasing: values appended in place to a list of a yielded feature (key not given by update_attributes)",
+            "aliasing: a key given by update_attributes re-assigned in place on a yielded feature",
+            "aliasing: other yielded features compared after an in-place edit",
+            "aliasing: input attribute mappings compared after an in-place edit"] + \
+           ["aliasing: %s: merge_attributes %s" % (w, m) for m in ("on", "off") for w in
+            ("the caller's update_attributes dictionary compared (deep) after an in-place edit",
+             "... holding several-valued lists under non-ID keys")] + \
+           ["aliasing: later features compared at yield time after an earlier one was edited in place: merge_attributes %s, "
+            "update_attributes given" % m for m in ("on", "off")]
 REQUIRED_CLASSES = ["list/objects", "list/db gff3", "list/db gtf", "introns/gff3", "introns/gtf", "splice/gff3", "splice/gtf",
                     "list/objects equal attributes", "list/db gff3 equal attributes", "list/db gtf equal attributes",
                     "list/objects update_attributes", "list/db update_attributes",
@@ -112,7 +133,8 @@ REQUIRED_CLASSES = ["list/objects", "list/db gff3", "list/db gtf", "introns/gff3
                     "splice/gff3 on a database holding derived features", "splice/gtf on a database holding derived features",
                     "list/objects bare strings (plain dict)", "list/objects bare strings (item assignment on parsed text)",
                     "list/objects fed back from an earlier call", "introns/gff3 exons nested below a transcript's exons",
-                    "splice/gff3 exons nested below a transcript's exons"]
+                    "splice/gff3 exons nested below a transcript's exons", "list/objects yielded features edited in place",
+                    "list/db gff3 yielded features edited in place"]
 ASSUMPTIONS = [
     "'at least one base between them' = next.start - previous.end >= 2; lists are start-ordered inside a block of one seqid "
     "(the statement speaks of features given in order), exon starts are distinct inside a transcript",
@@ -136,6 +158,14 @@ ASSUMPTIONS = [
     "children); exon-typed features further down (exons of a miRNA under a primary_transcript) belong to the nested feature, "
     "which is a transcript itself only when parent_featuretype names its type; the transcripts are the features whose Parent "
     "names a feature of the grandparent type (grandparent mode) or the features of parent_featuretype",
+    "'inputs are unchanged' includes the dictionary handed in as update_attributes: whatever a consumer does to a yielded "
+    "feature's own attributes (item assignment, appending to its lists) changes neither another yielded feature nor the "
+    "caller's update_attributes nor an input, and a feature is yielded as the model says whatever was done to the ones before "
+    "it.  NOT generated, hence not judged: appending in place to a value list that came from update_attributes - the unchanged "
+    "tree puts the caller's list OBJECTS into every yielded feature (merge_attributes on or off): interfeatures([exon 1-5, exon "
+    "10-15, exon 20-25], update_attributes={'Parent': ['p1', 'p2']}), then first.attributes['Parent'].append('x') makes "
+    "update_attributes['Parent'] and the second yielded feature's Parent ['p1', 'p2', 'x'].  The consumer's edits are item "
+    "assignments (ID, a new key, a key of update_attributes) and appends to lists under keys update_attributes does not give",
 ]
 QUICK_SHARDS = 4
 THOROUGH_SHARDS = 16
@@ -308,6 +338,8 @@ def execute(ctx, case):
             return execute_fedback(ctx, case)
         if kind == "derived":
             return execute_derived(ctx, case)
+        if kind == "alias":
+            return execute_alias(ctx, case)
         return execute_model(ctx, case)
     finally:
         for v in contracts.drain():
@@ -618,6 +650,147 @@ def short(f):
     d = geometry(f)
     d["attrs"] = attrs_of(f)
     return d
+
+
+# -- aliasing: the consumer edits the yielded features in place ---------------------------------------------------------------
+def execute_alias(ctx, case):
+    """kind "alias": {"feats", "source": "objects" | "gff3", "opts", "lazy": bool, "edit_seed"}.
+
+    interfeatures(..., update_attributes=<the caller's dict>) is consumed feature by feature (lazy) or collected first; every
+    yielded feature is compared with the model AT YIELD TIME and then EDITED IN PLACE by the consumer (an ID is set by item
+    assignment, values are appended to lists under keys that update_attributes does not give, a key is added, a key of
+    update_attributes is re-assigned); after every edit every other yielded feature, the caller's update_attributes dictionary
+    (deep snapshot) and the inputs' attribute mappings must be what they were.  After the generator is exhausted every collected
+    feature is edited once more, with the same comparisons."""
+    import gffutils
+
+    recs, opts, source = case["feats"], case["opts"], case["source"]
+    info = {"gaps": 0, "suppressed": 0}
+    db = dbfn = None
+    try:
+        model_in = [to_model(r) for r in recs]
+        if source == "objects":
+            db = scratch_db()
+            feats = [build_feature(r, i) for i, r in enumerate(recs)]
+        else:
+            try:
+                db, dbfn = open_db(ctx, case, G.render(recs, "gff3"), "gff3", id_spec="ID")
+                by_id = {f.attributes["ID"][0]: f for f in db.all_features()}
+                feats = [by_id[r_id(r)] for r in recs]
+            except Exception as ex:
+                ctx.violation(case, {"why": "harness: building the input database raised %r" % (ex,)})
+                return info
+        if [attrs_of(f) for f in feats] != [m["attrs"] for m in model_in]:
+            ctx.violation(case, {"why": "harness: a Feature object does not carry the values of its record"})
+            return info
+        merge = opts["merge_attributes"]
+        exp, suppressed = M.gaps(model_in, new_featuretype=opts["new_featuretype"], merge_attributes=merge,
+                                 numeric_sort=opts["numeric_sort"], update_attributes=opts["update_attributes"])
+        info = {"gaps": len(exp), "suppressed": sum(suppressed.values())}
+        upd = copy.deepcopy(opts["update_attributes"])          # the dictionary the caller hands in
+        snap = copy.deepcopy(upd)
+        given = set(upd or ())
+        several = bool(upd) and any(k != "ID" and len(v) > 1 for k, v in upd.items())
+        held_in = [raw_attrs(f) for f in feats]
+        how = "on" if merge else "off"
+        lazy = case["lazy"]
+        when = "while iterating lazily" if lazy else "after collecting"
+        r = random.Random(case["edit_seed"])
+        out, kept = [], []          # yielded features, and what each must hold (snapshot after the consumer's last edit)
+
+        def edit(f, i, rnd):
+            a = f.attributes
+            a["ID"] = ["al%d_%d" % (rnd, i)]
+            ctx.mon("aliasing: yielded features given an ID in place (item assignment)")
+            for k in list(a.keys()):
+                if k != "ID" and k not in given and isinstance(a[k], list) and r.random() < 0.7:
+                    a[k].append("ed%d_%d" % (rnd, i))
+                    ctx.mon("aliasing: values appended in place to a list of a yielded feature (key not given by update_attributes)")
+            if r.random() < 0.5:
+                a["alias_extra"] = ["x%d_%d" % (rnd, i)]
+            rest = sorted(k for k in given if k != "ID")
+            if rest and r.random() < 0.35:
+                a[r.choice(rest)] = ["repl%d_%d" % (rnd, i)]
+                ctx.mon("aliasing: a key given by update_attributes re-assigned in place on a yielded feature")
+
+        def unaffected(i, what):
+            """After the consumer edited yielded feature i: everything else is what it was."""
+            for j, f in enumerate(out):
+                if j != i:
+                    ctx.mon("aliasing: other yielded features compared after an in-place edit")
+                    if raw_attrs(f) != kept[j]:
+                        ctx.violation(case, {"why": "interfeatures: editing one yielded feature's attributes in place changed another "
+                                                    "yielded feature (%s; merge_attributes %s)" % (what, how), "edited": i, "changed": j,
+                                             "held": kept[j], "now": raw_attrs(f)})
+                        return False
+            if upd is not None:
+                ctx.mon("aliasing: the caller's update_attributes dictionary compared (deep) after an in-place edit: merge_attributes %s" % how)
+                if several:
+                    ctx.mon("aliasing: ... holding several-valued lists under non-ID keys: merge_attributes %s" % how)
+                if upd != snap:
+                    ctx.violation(case, {"why": "interfeatures: editing a yielded feature's attributes in place changed the caller's "
+                                                "update_attributes dictionary (%s; merge_attributes %s)" % (what, how),
+                                         "edited": i, "before": snap, "after": copy.deepcopy(upd)})
+                    return False
+            ctx.mon("aliasing: input attribute mappings compared after an in-place edit", len(feats))
+            if [raw_attrs(f) for f in feats] != held_in:
+                ctx.violation(case, {"why": "interfeatures: editing a yielded feature's attributes in place changed an input feature "
+                                            "(%s; merge_attributes %s)" % (what, how), "edited": i})
+                return False
+            return True
+
+        w = Watch(ctx, db, feats)
+        try:
+            gen = db.interfeatures(iter(feats), new_featuretype=opts["new_featuretype"], merge_attributes=merge,
+                                   numeric_sort=opts["numeric_sort"], update_attributes=upd)
+            for i, f in enumerate(gen):
+                if i >= len(exp):
+                    ctx.violation(case, {"why": "interfeatures yielded more features than the pairs with a gap", "got": short(f),
+                                         "n_expected": len(exp)})
+                    return info
+                ctx.mon("gap features compared")
+                why = compare_gap(f, exp[i])
+                if why:
+                    ctx.violation(case, {"why": "interfeatures: %s%s" % (why, " (yielded after the consumer edited the features yielded "
+                                                                              "before it in place)" if lazy and i else ""),
+                                         "index": i, "got": short(f), "expected": exp[i], "merge_attributes": merge})
+                    return info
+                if lazy and i:
+                    ctx.mon("aliasing: later features compared at yield time after an earlier one was edited in place: merge_attributes %s%s"
+                            % (how, ", update_attributes given" if upd else ""))
+                out.append(f)
+                kept.append(raw_attrs(f))
+                if lazy:
+                    edit(f, i, 1)
+                    kept[i] = raw_attrs(f)
+                    if not unaffected(i, "while iterating lazily"):
+                        return info
+        except Exception as ex:
+            ctx.violation(case, {"why": "interfeatures raised %s (%s)" % (type(ex).__name__, when), "error": repr(ex)})
+            return info
+        ctx.mon("interfeatures calls")
+        count_expectations(ctx, exp, suppressed)
+        if len(out) != len(exp):
+            ctx.violation(case, {"why": "interfeatures yielded fewer features than the pairs with a gap", "n_got": len(out),
+                                 "n_expected": len(exp), "expected": exp[:10]})
+            return info
+        if out:
+            ctx.mon("aliasing: interfeatures calls whose yielded features were edited in place %s" % when)
+        # the collected features are edited (once more), one after the other
+        for i, f in enumerate(out):
+            edit(f, i, 2)
+            kept[i] = raw_attrs(f)
+            if not unaffected(i, "after collecting"):
+                return info
+        if out and lazy:
+            ctx.mon("aliasing: interfeatures calls whose yielded features were edited in place after collecting")
+        bad = w.finish()
+        if bad:
+            ctx.violation(case, dict(bad[1], why="interfeatures: " + bad[0]))
+    finally:
+        if dbfn is not None:
+            close_db(db, dbfn)
+    return info
 
 
 # -- create_introns / create_splice_sites on a gene model ----------------------------------------------------------------
@@ -1104,6 +1277,21 @@ def run(ctx):
         info = execute(ctx, case)
         ctx.case((call, case["recs"], case["opts"]), info.get("deep", 0) >= 1 and info["gaps"] >= 1,
                  sample=case if len(recs) <= 7 else None, cls="%s/gff3 exons nested below a transcript's exons" % call)
+    # the consumer edits every yielded feature in place (lazily and after collecting): nothing else may change
+    for k in range(ctx.budget(2400, 60000)):
+        feats = G.alias_list(rng)
+        opts = G.list_options(rng)
+        opts["merge_attributes"] = rng.random() < 0.5
+        opts["update_attributes"] = G.alias_update(rng, feats) if rng.random() < 0.85 else None
+        source = "gff3" if k % 8 == 7 else "objects"
+        if source == "gff3":
+            feats = G.feature_list(rng, unique_ids=True)
+        case = {"kind": "alias", "source": source, "feats": feats, "opts": opts, "lazy": rng.random() < 0.7,
+                "edit_seed": rng.randrange(1 << 30), "dbfile": source == "gff3" and rng.random() < 0.2}
+        info = execute(ctx, case)
+        ctx.case((source, case["feats"], case["opts"], case["lazy"], case["edit_seed"]), info["gaps"] >= 2,
+                 sample=case if len(feats) == 3 else None,
+                 cls="list/%s yielded features edited in place" % ("objects" if source == "objects" else "db gff3"))
     ctx.mon("bins.bins contract evaluations", contracts.EVALS["bins.bins"])
 
 
@@ -1128,7 +1316,11 @@ MANIFEST = {
             "interfeatures(update_attributes={key: 'string'}) call fed back in (a bare string is one whole value in the union and "
             "in the joined ID; the inputs' attribute mappings keep values and form); GFF3 hierarchies in which transcripts have "
             "exon-typed descendants below their own exons (primary_transcript -> exon and -> miRNA -> exon), in grandparent and "
-            "parent_featuretype mode: only the exons whose Parent names the transcript are its exons. "
+            "parent_featuretype mode: only the exons whose Parent names the transcript are its exons; 'alias' cases in which the "
+            "consumer edits every yielded feature in place (sets an ID, appends to its lists) while iterating lazily and after "
+            "collecting, with update_attributes holding several-valued lists and merge_attributes on and off: every other yielded "
+            "feature, a deep snapshot of the caller's update_attributes dictionary and the inputs stay what they were, and later "
+            "features are yielded as the model says. "
             "The inputs' printed form, an "
             "independent sqlite3 dump of the database and the SQL trace are compared before and after each call. "
             "Held = no executed case disagreed.",
